@@ -13,7 +13,7 @@ from xdsl.pattern_rewriter import (
     op_type_rewrite_pattern,
 )
 from xdsl.rewriter import InsertPoint
-from xdsl.traits import Pure
+from xdsl.traits import IsTerminator, Pure
 from xdsl.utils.hints import isa
 
 
@@ -90,7 +90,7 @@ class LoopHoistPureOperations(RewritePattern):
                     is_in_loop(op),
                     defined_outside_loop(op),
                     Pure() in op.traits or is_whitelisted(main_op),
-                    not isinstance(op, scf.YieldOp),
+                    not op.has_trait(IsTerminator),
                 ]
             ):
                 return True
